@@ -468,13 +468,79 @@ def history_unit(tier):
     return out
 
 
+PERMUTE = r"""
+import json, io, contextlib, importlib, warnings, signal
+import numpy as np
+warnings.simplefilter('ignore')
+classes = %(classes)r; loose = %(loose)r
+class Alarm(BaseException): pass
+def handler(*a): raise Alarm()
+signal.signal(signal.SIGALRM, handler)
+out = {}
+for key in classes:
+    mod, cls = key.split(':'); bad = []
+    try:
+        C = getattr(importlib.import_module(mod), cls)
+        signal.alarm(%(per)d)
+        with contextlib.redirect_stdout(io.StringIO()): s = C()
+        r = None
+        for dim in (1, 2, 3):
+            b1 = np.array([0.23, 0.45, 0.61, 0.87, 1.13])
+            base = b1 if dim == 1 else np.column_stack([b1 * (3.1 + j) for j in range(dim)])
+            for t in (0.6, 0.05):
+                try:
+                    with contextlib.redirect_stdout(io.StringIO()): r = s(base.copy(), t)
+                    break
+                except Exception: r = None
+            if r is not None: break
+        if r is None: out[key] = {'evaluated': False, 'failures': []}; signal.alarm(0); continue
+        perm = np.array([3, 0, 4, 2, 1])
+        with contextlib.redirect_stdout(io.StringIO()):
+            rp = s(base[perm].copy(), t); rs = s(base[[1, 3]].copy(), t); rd = s(np.concatenate([base[[2]], base, base[[2]]]).copy(), t)
+        tol = 2e-2 if any(q in key for q in loose) else 1e-9
+        for n in r.dtype.names:
+            a = np.asarray(r[n], dtype=float) if r[n].dtype.kind in 'fiu' else None
+            if a is None: continue
+            sc_ = np.nanmax(np.abs(a)) + 1e-300
+            for lab, got, idx in (('permuted request', rp[n], perm), ('subset request', rs[n], [1, 3]), ('request with duplicates', rd[n][1:6], [0, 1, 2, 3, 4])):
+                g = np.asarray(got, dtype=float); w = a[idx]
+                ok = np.all((np.abs(g - w) <= tol * sc_) | (np.isnan(g) & np.isnan(w)))
+                if not ok: bad.append((lab, n, [float(x) for x in w][:5], [float(x) for x in g][:5])); break
+        signal.alarm(0)
+        out[key] = {'evaluated': True, 'failures': bad[:4], 'tolerance': tol}
+    except Alarm: out[key] = {'evaluated': False, 'failures': [], 'timeout': True}
+    except Exception as e: out[key] = {'evaluated': False, 'failures': [], 'error': type(e).__name__}; signal.alarm(0)
+print(json.dumps({'reproduced': any(v['failures'] for v in out.values()), 'classes': out}))
+"""
+LOOSE = ['sedov', 'sdrz', 'riemann', 'guderley', 'radshocks', 'ehep']      # documented grid dependence: internal grids / interpolation tables built from the request (tolerance 2e-2)
+SKIP = ['ep_piston', 'mader']      # ep_piston: known finding (raises depending on max(xvec)); Mader: the request *is* the cell grid (cell width from first/last point, documented cell averages): permutations are not the same problem
+
+
+def permutation_unit(chunk, tier):
+    """bounded: value at a point does not depend on order, subsets, supersets or duplicates of the request (one default-constructed object per class)"""
+    r_ = native.run_script(PERMUTE % dict(classes=chunk, loose=LOOSE, per=12 if tier == 'quick' else 400), timeout=3600)
+    res = {'obligations': [], 'functions': [], 'engine_errors': [], 'bounded': []}
+    if r_.get('result') is None:
+        res['engine_errors'].append('bounded permutation check did not run: ' + (r_.get('stderr_tail') or '')[-300:]); return res
+    for k in chunk:
+        v = r_['result']['classes'].get(k, {'evaluated': False, 'failures': []})
+        res['bounded'].append({'name': 'C06/bounded/permutation/%s' % k.replace('exactpack.solvers.', ''), 'status': 'fail' if v['failures'] else 'pass', 'evaluations': 4 if v.get('evaluated') else 0,
+                               'bound': 'default parameters, 5 points: original order, a permutation, a 2-point subset, a superset with duplicates%s' % ('' if v.get('evaluated') else ' (not evaluated: %s)' % ('time budget' if v.get('timeout') else v.get('error', 'not default-callable'))),
+                               'tolerance': str(v.get('tolerance', '')), 'detail': json.dumps(v['failures'])[:300], 'replay': PERMUTE % dict(classes=[k], loose=LOOSE, per=600) if v['failures'] else None})
+    return res
+
+
 def units(tier):
     us = [('globals/' + m.replace('exactpack.solvers.', ''), {'kind': 'glob', 'mod': m}) for m in modules_with_globals()]
     us += [('instance', {'kind': 'inst'}), ('shared', {'kind': 'shared'}), ('batch', {'kind': 'batch'}), ('history', {'kind': 'hist', 'tier': tier})]
+    from props.c05 import solver_classes
+    cl = [k for k in solver_classes() if not any(q in k for q in SKIP)]; n = 12
+    us = [('permutation/%d' % i, {'kind': 'perm', 'chunk': cl[i::n], 'tier': tier}) for i in range(n) if cl[i::n]] + us
     return us
 
 
-def run_unit(name, kind, mod=None, tier='quick'):
+def run_unit(name, kind, mod=None, tier='quick', chunk=None):
+    if kind == 'perm': return permutation_unit(chunk, tier)
     if kind == 'glob': return globals_unit(mod)
     if kind == 'inst': return instance_unit()
     if kind == 'shared': return shared_state_unit()
